@@ -12,6 +12,7 @@
 #include <cstring>
 
 #include "common/engine.hpp"
+#include "common/cshim.h"
 #include "common/fsutil.hpp"
 #include "common/model.hpp"
 
@@ -163,6 +164,17 @@ static void file_roundtrip(const std::vector<TypedKey> &keys) {
     std::string k = "k" + std::to_string(i);
     const char *sec = (i % 3 == 0) ? nullptr : (i % 3 == 1 ? "A" : "B");
     uint64_t b = keys[i].bits;
+    // every other key goes through the header's generic econf_setValue() macro (C only: through the shim)
+    if (i % 2 == 1 && keys[i].type < 6) {
+      switch (keys[i].type) {
+        case 0: e = (econf_err)vf_generic_set_i32(kf, sec, k.c_str(), (int32_t)b); break;
+        case 1: e = (econf_err)vf_generic_set_u32(kf, sec, k.c_str(), (uint32_t)b); break;
+        case 2: { float f; uint32_t u = (uint32_t)b; memcpy(&f, &u, 4); e = (econf_err)vf_generic_set_f32(kf, sec, k.c_str(), f); break; }
+        case 3: e = (econf_err)vf_generic_set_i64(kf, sec, k.c_str(), (int64_t)b); break;
+        case 4: e = (econf_err)vf_generic_set_u64(kf, sec, k.c_str(), b); break;
+        default: { double d; memcpy(&d, &b, 8); e = (econf_err)vf_generic_set_f64(kf, sec, k.c_str(), d); break; }
+      }
+    } else
     switch (keys[i].type) {
       case 0: e = econf_setIntValue(kf, sec, k.c_str(), (int32_t)b); break;
       case 1: e = econf_setUIntValue(kf, sec, k.c_str(), (uint32_t)b); break;
